@@ -26,6 +26,9 @@ type FuncResult struct {
 // VerifyFunc generates the obligations of one function against its contract.
 func (p *Prog) VerifyFunc(con *Contract) (res *FuncResult) {
 	res = &FuncResult{Key: con.Key, Con: con, Mode: con.Mode}
+	if con.Ghost {
+		return p.verifyGhost(con)
+	}
 	fn := p.FuncByKey(con.Key)
 	if fn == nil {
 		res.Err = "contract-orphan: function not found"
@@ -40,7 +43,7 @@ func (p *Prog) VerifyFunc(con *Contract) (res *FuncResult) {
 		return
 	}
 	x := &exec{p: p, c: NewCtx(con.Mode), fn: fn, con: con, subAx: map[string]bool{}, notes: map[string]bool{},
-		exprAt: exprIndex(fn), specFns: map[string]*specFn{}, pureFns: map[string]bool{}}
+		exprAt: exprIndex(fn), specFns: map[string]*specFn{}, pureFns: map[string]bool{}, fnName: fn.String(), fnPos: fn.Pos()}
 	x.h = &heapEnv{c: x.c, sorts: map[string]string{}}
 	defer func() {
 		if r := recover(); r != nil {
@@ -93,6 +96,9 @@ func (x *exec) verify(res *FuncResult) {
 	x.obligs = append(x.obligs, &Oblig{Base: "cover:requires", Kind: "cover", Func: fn.String(), Hyp: st.reach, Goal: "true", Cover: true, C: x.c,
 		pos: fn.Pos(), Pos: x.p.Fset.Position(fn.Pos())})
 	entry := st.clone()
+	if con.ModSet || con.Pure {
+		x.frame = x.computeFrame(entry, env)
+	}
 	x.stack = []*ssa.Function{fn}
 	x.run(fr, st)
 	x.checkBackEdges(fr)
@@ -133,9 +139,7 @@ func (x *exec) verify(res *FuncResult) {
 			s2 := sr.clone()
 			x.oblig(fr, s2, "post", label, fn.Pos(), g, e.Props)
 		}
-		if con.ModSet || con.Pure {
-			x.frameCheck(fr, entry, sr, env)
-		}
+		x.frameCheck(fr, x.frame, sr)
 		for _, cv := range con.Covers {
 			g := x.evalBool(cv.E, post)
 			x.obligs = append(x.obligs, &Oblig{Base: "cover:" + cv.Label, Kind: "cover", Func: fn.String(), Hyp: And(sr.reach, g), Goal: "true", Cover: true, C: x.c,
@@ -178,7 +182,7 @@ func (x *exec) aliveVal(s *State, v *Val) string {
 }
 
 // frameCheck proves that only the declared locations changed.
-func (x *exec) frameCheck(fr *frame, entry, exit *State, env *Env) {
+func (x *exec) frameCheckOld(fr *frame, entry, exit *State, env *Env) {
 	con := x.con
 	for _, m := range con.Modifies {
 		if m.Text == "*" {
